@@ -5,6 +5,7 @@ import (
 	"go/token"
 	"go/types"
 	"math"
+	"os"
 	"sort"
 	"strings"
 
@@ -201,6 +202,50 @@ func (b *boundsCtx) lenOf(x ssa.Value) lin {
 	return b.atom("len("+b.valKey(x)+")", 0, posInf, x)
 }
 
+// capOf: linear form of cap(x) when it is structurally known (make with a capacity, re-slice of such a slice).
+func (b *boundsCtx) capOf(x ssa.Value) (lin, bool) {
+	x = b.c.Resolve(x)
+	switch s := x.(type) {
+	case *ssa.MakeSlice:
+		return b.norm(s.Cap), true
+	case *ssa.Slice:
+		var top lin
+		if p, isPtr := s.X.Type().Underlying().(*types.Pointer); isPtr {
+			arr, isArr := p.Elem().Underlying().(*types.Array)
+			if !isArr {
+				return lin{}, false
+			}
+			top = newLin(arr.Len())
+			if s.Max != nil {
+				top = b.norm(s.Max)
+			}
+			if s.Low != nil {
+				return top.add(b.norm(s.Low), -1), true
+			}
+			return top, true
+		}
+		if _, isSlice := s.X.Type().Underlying().(*types.Slice); !isSlice {
+			return lin{}, false
+		}
+		if s.Max != nil {
+			top = b.norm(s.Max)
+		} else {
+			t, ok := b.capOf(s.X)
+			if !ok {
+				return lin{}, false
+			}
+			top = t
+		}
+		if s.Low != nil {
+			return top.add(b.norm(s.Low), -1), true
+		}
+		return top, true
+	case *ssa.ChangeType:
+		return b.capOf(s.X)
+	}
+	return lin{}, false
+}
+
 // norm: linear form of an integer value.
 func (b *boundsCtx) norm(v ssa.Value) lin {
 	if k, ok := constInt(v); ok {
@@ -228,6 +273,11 @@ func (b *boundsCtx) norm(v ssa.Value) lin {
 	case *ssa.Call:
 		if bi, ok := x.Call.Value.(*ssa.Builtin); ok && bi.Name() == "len" && len(x.Call.Args) == 1 {
 			return b.lenOf(x.Call.Args[0])
+		}
+		if bi, ok := x.Call.Value.(*ssa.Builtin); ok && bi.Name() == "cap" && len(x.Call.Args) == 1 {
+			if cp, ok := b.capOf(x.Call.Args[0]); ok {
+				return cp
+			}
 		}
 	case *ssa.Convert:
 		if isIntType(x.Type()) {
@@ -262,6 +312,12 @@ func (b *boundsCtx) norm(v ssa.Value) lin {
 		lo = 0
 		if w < 62 {
 			hi = (int64(1) << uint(w)) - 1
+		}
+	} else if isIntType(v.Type()) {
+		// a value assembled from masked/shifted bytes: the bit-width domain bounds it (0 <= v < 2^w)
+		wa := &widthAnalysis{c: b.c, memo: map[ssa.Value]int{}, prog: map[ssa.Value]bool{}}
+		if w := wa.width(v); w < b.c.wordBits-1 && w < 62 {
+			lo, hi = 0, (int64(1)<<uint(w))-1
 		}
 	}
 	return b.atom("v("+b.valKey(v)+")", lo, hi, v)
@@ -627,13 +683,14 @@ type boundGoal struct {
 	At   ssa.Instruction
 	Desc string
 	L    lin
+	Alt  *lin // an alternative that also suffices (slice high bound against cap instead of len)
 }
 
 // goalsOf lists the index / slice / make obligations of one function.
 func (b *boundsCtx) goalsOf(f *ssa.Function) []boundGoal {
 	var out []boundGoal
 	add := func(at ssa.Instruction, desc string, l lin) {
-		out = append(out, boundGoal{at, desc, l})
+		out = append(out, boundGoal{At: at, Desc: desc, L: l})
 	}
 	upper := func(x ssa.Value) (lin, bool) {
 		switch t := x.Type().Underlying().(type) {
@@ -688,6 +745,13 @@ func (b *boundsCtx) goalsOf(f *ssa.Function) []boundGoal {
 			if x.High != nil {
 				hi = b.norm(x.High)
 				add(in, fmt.Sprintf("high %s <= len(%s)", x.High.Name(), x.X.Name()), up.add(hi, -1))
+				if _, isSlice := x.X.Type().Underlying().(*types.Slice); isSlice {
+					// s[lo:hi] of a slice only needs hi <= cap(s)
+					if cp, ok := b.capOf(x.X); ok {
+						alt := cp.add(hi, -1)
+						out[len(out)-1].Alt = &alt
+					}
+				}
 			}
 			if x.Low != nil {
 				add(in, "low <= high", hi.add(lo, -1))
@@ -733,6 +797,15 @@ func (b *boundsCtx) analyse(fns []*ssa.Function) []boundResult {
 	for _, f := range fns {
 		for _, g := range b.goalsOf(f) {
 			ok, why := b.proveAt(g.L, g.At, g.Desc)
+			if !ok && g.Alt != nil {
+				ok2, why2 := b.proveAt(*g.Alt, g.At, g.Desc+" (against cap)")
+				if os.Getenv("MQTTCHECK_DEBUG_BOUNDS") != "" {
+					fmt.Fprintf(os.Stderr, "bounds: alt goal %s >= 0 at %s: %v %s\n", g.Alt.String(), b.c.Fset.Position(g.At.Pos()), ok2, why2)
+				}
+				if ok2 {
+					ok, why = ok2, why2
+				}
+			}
 			r := boundResult{Goal: g, Fn: f, OK: ok, Why: why}
 			if !ok && b.onlyParamLens(f, g.L) && len(la.callers[f]) > 0 && f.Parent() == nil {
 				r.Lifted = true
@@ -771,7 +844,7 @@ func (b *boundsCtx) analyse(fns []*ssa.Function) []boundResult {
 					}
 					b.seenPre[key] = true
 					ok, why := b.proveAt(g, site, desc)
-					r := boundResult{Goal: boundGoal{site, desc, g}, Fn: caller, OK: ok, Why: why}
+					r := boundResult{Goal: boundGoal{At: site, Desc: desc, L: g}, Fn: caller, OK: ok, Why: why}
 					if !ok && b.onlyParamLens(caller, g) && len(la.callers[caller]) > 0 && caller.Parent() == nil {
 						r.Lifted = true
 						b.pre[caller] = append(b.pre[caller], preCond{L: g, Desc: desc, Pos: site.Pos()})
